@@ -58,7 +58,8 @@ type pageSpec struct {
 type docSpec struct {
 	fields                    []*node
 	sf, perm, dss, legal, ext bool
-	perms                     int // 0 none, 1 DocMDP, 2 UR3
+	perms                     int // bit 0: /Perms /DocMDP, bit 1: /Perms /UR3
+	layout                    int // 0 regular AcroForm; no usable form: 1 no /AcroForm, 2 /AcroForm without /Fields, 3 /Fields [] with /SigFlags
 	pages                     []pageSpec
 	others                    []other
 	next                      int // next free object number
@@ -151,20 +152,31 @@ func (d *docSpec) build() []byte {
 	}
 	// catalog
 	cat := "<</Type/Catalog/Pages 2 0 R"
-	if len(d.fields) > 0 {
+	if len(d.fields) > 0 || d.layout >= 2 {
 		cat += fmt.Sprintf("/AcroForm %d 0 R", d.acroObj)
 	}
-	switch d.perms {
-	case 1:
-		id := d2.newID()
-		objs[id] = "<</Type/Sig/Filter/Adobe.PPKLite/SubFilter/adbe.pkcs7.detached/Contents<3000>/ByteRange[0 1 2 3]" +
-			"/Reference[<</Type/SigRef/TransformMethod/DocMDP/TransformParams<</Type/TransformParams/P 2/V/1.2>>>>]>>"
-		cat += fmt.Sprintf("/Perms<</DocMDP %d 0 R>>", id)
-	case 2:
-		id := d2.newID()
-		objs[id] = "<</Type/Sig/Filter/Adobe.PPKLite/SubFilter/adbe.pkcs7.detached/Contents<3000>/ByteRange[0 1 2 3]" +
-			"/Reference[<</Type/SigRef/TransformMethod/UR3/TransformParams<</Type/TransformParams/V/2.2/Document[/FullSave]>>>>]>>"
-		cat += fmt.Sprintf("/Perms<</UR3 %d 0 R>>", id)
+	switch {
+	case len(d.fields) > 0:
+	case d.layout == 2: // validation drops an AcroForm without /Fields and leaves xRefTable.Form nil
+		objs[d.acroObj] = "<</DA(/Helv 0 Tf 0 g)/SigFlags 3>>"
+	case d.layout == 3: // ... and one with an empty /Fields array
+		objs[d.acroObj] = "<</Fields[]/SigFlags 3/DA(/Helv 0 Tf 0 g)>>"
+	}
+	if d.perms != 0 {
+		pd := ""
+		if d.perms&1 != 0 {
+			id := d2.newID()
+			objs[id] = "<</Type/Sig/Filter/Adobe.PPKLite/SubFilter/adbe.pkcs7.detached/Contents<3000>/ByteRange[0 1 2 3]" +
+				"/Reference[<</Type/SigRef/TransformMethod/DocMDP/TransformParams<</Type/TransformParams/P 2/V/1.2>>>>]>>"
+			pd += fmt.Sprintf("/DocMDP %d 0 R", id)
+		}
+		if d.perms&2 != 0 {
+			id := d2.newID()
+			objs[id] = "<</Type/Sig/Filter/Adobe.PPKLite/SubFilter/adbe.pkcs7.detached/Contents<3000>/ByteRange[0 1 2 3]" +
+				"/Reference[<</Type/SigRef/TransformMethod/UR3/TransformParams<</Type/TransformParams/V/2.2/Document[/FullSave]>>>>]>>"
+			pd += fmt.Sprintf("/UR3 %d 0 R", id)
+		}
+		cat += "/Perms<<" + pd + ">>"
 	}
 	if d.perm {
 		cat += "/Perm<<>>"
@@ -733,7 +745,7 @@ func (h *runner) doc(d *docSpec, label string) {
 		} else {
 			r.OracleOK()
 		}
-		if d.perms == 2 && err != nil {
+		if d.perms&2 != 0 && err != nil {
 			fail("usage-rights-only-rejected", "document whose only signature is /Perms /UR3: "+err.Error()+"; the usage-rights entry cannot be removed")
 		}
 		if err != nil && errors.Is(err, api.ErrNoSignatures) {
@@ -826,15 +838,26 @@ func (h *runner) doc(d *docSpec, label string) {
 		}
 	}
 	// 3. certification / usage rights / flags / DSS / values
-	if o.perms {
-		failS("perms-survive", "catalog /Perms (DocMDP/UR3 signature reference) is still present after removal")
+	layoutName := [...]string{"", "no-acroform", "acroform-without-fields", "acroform-empty-fields"}[d.layout]
+	if len(d.fields) == 0 && d.layout == 0 {
+		layoutName = "no-acroform"
 	}
+	catalog := func(present bool, entry, regularClass string) {
+		if !present {
+			return
+		}
+		if layoutName != "" {
+			failS("catalog-entry-survives:"+layoutName+":"+entry, "catalog /"+entry+" is still present after removal (document without usable AcroForm: "+layoutName+")")
+		} else {
+			failS(regularClass, "catalog /"+entry+" is still present after removal")
+		}
+	}
+	catalog(o.perms, "Perms", "perms-survive")
+	catalog(o.legal, "Legal", "legal-survives")
 	if o.sf {
 		failS("sigflags-survive", "AcroForm /SigFlags still present")
 	}
-	if o.dss {
-		failS("dss-survives", "catalog /DSS still present")
-	}
+	catalog(o.dss, "DSS", "dss-survives")
 	if o.sigValue && !o.perms && !survivingSig {
 		failS("sig-value-survives", "a signature value dictionary (/ByteRange) is still in the written file")
 	}
@@ -1053,6 +1076,42 @@ func (h *runner) scenarios() {
 	}
 }
 
+// every combination of: form layout (regular flat form / no AcroForm / AcroForm without Fields /
+// empty Fields with SigFlags) x Perms (none, DocMDP, UR3, both) x DSS x Legal x Extensions x
+// (signature widget listed in a page's /Annots | none).  In the layouts without a usable form the
+// signature widget is ONLY reachable through the page: xRefTable.Form is nil, len(ctx.Signatures) > 0.
+func (h *runner) catalogGrid() {
+	for layout := 0; layout <= 3; layout++ {
+		for perms := 0; perms <= 3; perms++ {
+			for bits := 0; bits < 8; bits++ {
+				for sigw := 0; sigw < 2; sigw++ {
+					d := h.newDoc(2)
+					d.layout = layout
+					d.perms = perms
+					d.dss, d.legal, d.ext = bits&1 != 0, bits&2 != 0, bits&4 != 0
+					if layout == 0 {
+						d.sf = true
+						d.fields = []*node{d.W("Tx", d.pages[0].obj)}
+						if sigw == 1 {
+							d.fields = append(d.fields, d.W("Sig", d.pages[1].obj))
+						}
+					} else if sigw == 1 {
+						o := other{id: d.newID(), ft: "Sig", widget: true}
+						d.others = append(d.others, o)
+						d.place(d.pages[1].obj, o.id)
+					}
+					t := other{id: d.newID()}
+					d.others = append(d.others, t)
+					d.place(d.pages[0].obj, t.id)
+					d.finish()
+					h.r.Count(fmt.Sprintf("grid:layout=%d,sigwidget=%d", layout, sigw))
+					h.doc(d, fmt.Sprintf("grid:layout=%d,perms=%d,dss/legal/ext=%03b,sigwidget=%d", layout, perms, bits, sigw))
+				}
+			}
+		}
+	}
+}
+
 func (h *runner) randomDoc(maxDepth int, noSig bool) *docSpec {
 	rnd := h.r.Rand
 	d := h.newDoc(1 + rnd.Intn(3))
@@ -1162,7 +1221,12 @@ func (h *runner) randomDoc(maxDepth int, noSig bool) *docSpec {
 		}
 	}
 	// unless asked for a document without signatures, make sure there is at least one
-	if !noSig && len((&docSpec{fields: d.fields}).sigIDs()) == 0 {
+	if !noSig && len(d.fields) == 0 && rnd.Intn(3) != 0 {
+		// no form at all: the signature widget is only listed in a page's /Annots
+		o := other{id: d.newID(), ft: "Sig", widget: true}
+		d.others = append(d.others, o)
+		d.place(pg(), o.id)
+	} else if !noSig && len((&docSpec{fields: d.fields}).sigIDs()) == 0 {
 		where := pg()
 		n := &node{id: d.newID(), ft: "Sig", widget: true, rect: true, p: where}
 		d.place(where, n.id)
@@ -1211,8 +1275,14 @@ func (h *runner) randomDoc(maxDepth int, noSig bool) *docSpec {
 			d.perms = 1
 		case x < 17:
 			d.perms = 2
+		case x < 20:
+			d.perms = 3
 		}
 	}
+	if len(d.fields) == 0 {
+		d.layout = 1 + rnd.Intn(3)
+	}
+	d.legal = rnd.Intn(6) == 0
 	d.dss = rnd.Intn(5) == 0
 	d.ext = rnd.Intn(5) == 0
 	d.perm = rnd.Intn(8) == 0
@@ -1339,6 +1409,7 @@ func main() {
 	defer os.RemoveAll(dir)
 	h := &runner{r: r, dir: dir}
 	h.scenarios()
+	h.catalogGrid()
 	h.samples()
 	n := r.Pick(700, 30000)
 	for i := 0; i < n; i++ {
